@@ -250,6 +250,11 @@ fn cli_case(ctx: &Ctx, st: &mut Stats, text: &str, filter: Option<&str>, tag: &s
     let dir = ctx.fresh_dir(&format!("c14-{}", tag));
     let _ = std::fs::create_dir_all(&dir);
     let (dp, pp) = (dir.join("bdd.dot"), dir.join("tree.dot"));
+    // every other case: the export files already exist and are longer than what will be written
+    if text.len() % 2 == 0 {
+        let _ = std::fs::write(&dp, stale_content());
+        let _ = std::fs::write(&pp, stale_content());
+    }
     let mut args = vec![format!("--evaluate={}", text), "-d".to_string(), dp.display().to_string(), "-p".to_string(), pp.display().to_string()];
     if let Some(f) = filter {
         args.push("-f".into());
